@@ -1,6 +1,7 @@
 package main
 
 import (
+	"regexp"
 	"bytes"
 	"fmt"
 	"go/ast"
@@ -108,6 +109,10 @@ type FnEnc struct {
 	safetyCount map[string]int
 	allocCtr int
 	escaped  bool // a locally allocated reference may have reached the heap or a callee
+	escapedRefs []string // fresh references of this activation that may have escaped
+	escapedSeen map[string]bool
+	refAlias map[string][]string
+	refAxioms bool // emit the reference well-formedness axiom for unknown pointer-valued heap arrays
 	epochDeclared map[string]bool
 	rawUsed  map[string]bool
 	fbits    map[string]string
@@ -157,6 +162,8 @@ type frame struct {
 	headHeaps map[int]Heap // heap at the head of loop k (current iteration), for athead(k, e)
 	locals   []localAlloc // non-escaping allocations: untouched by callees and havocs
 	ghostRetTypes map[int]types.Type
+	excs     []excState
+	inDeferred bool
 	calleePure string     // condition under which the call being applied is pure
 	inLoopHavoc bool
 }
@@ -174,6 +181,28 @@ func (f *frame) wrote(what string) {
 	}
 	pos := token.NoPos
 	f.oblige("frame.pure", what, cond, "pure_if "+top.contract.PureIf.Text, pos)
+}
+
+// excState: the state in which a panic (JavaScript throw or foreign) leaves this function,
+// before its deferred calls run.
+type excState struct {
+	pc    string
+	heap  Heap
+	label string
+	pos   token.Pos
+}
+
+func (f *frame) wantUnwind() bool {
+	top := f.enc.top
+	return top != nil && top.contract != nil && (len(top.contract.Unwind) > 0 || len(top.contract.Preserves) > 0 || len(top.contract.OnlyAt) > 0)
+}
+
+func (f *frame) recordExc(label string, pos token.Pos, pc string, heap Heap) {
+	if !f.wantUnwind() || f.inDeferred {
+		return
+	}
+	top := f.enc.top
+	top.excs = append(top.excs, excState{pc: pc, heap: heap, label: label, pos: pos})
 }
 
 type localAlloc struct {
@@ -214,12 +243,59 @@ func (e *FnEnc) define(name, sort, term string) string {
 		bail("define of tuple sort")
 	}
 	e.decls = append(e.decls, fmt.Sprintf("(define-fun %s () %s %s)", name, sort, term))
+	if sort == "Int" || sort == "Iface" || strings.HasPrefix(sort, "S_") {
+		// remember which fresh references a named value may denote (for escape tracking)
+		if refs := e.freshIn(term); len(refs) > 0 {
+			if e.refAlias == nil {
+				e.refAlias = map[string][]string{}
+			}
+			e.refAlias[name] = refs
+		}
+	}
 	return name
+}
+
+var nameTokRe = regexp.MustCompile(`[A-Za-z_][A-Za-z0-9_.!@$#]*`)
+
+// freshIn: the fresh references "(- k)" a term mentions directly or through named values.
+func (e *FnEnc) freshIn(term string) []string {
+	seen := map[string]bool{}
+	var out []string
+	for _, r := range freshRefRe.FindAllString(term, -1) {
+		if !seen[r] {
+			seen[r] = true
+			out = append(out, r)
+		}
+	}
+	if len(e.refAlias) > 0 {
+		for _, tok := range nameTokRe.FindAllString(term, -1) {
+			for _, r := range e.refAlias[tok] {
+				if !seen[r] {
+					seen[r] = true
+					out = append(out, r)
+				}
+			}
+		}
+	}
+	return out
 }
 
 func (e *FnEnc) declare(name, sort string) string {
 	e.decls = append(e.decls, fmt.Sprintf("(declare-const %s %s)", name, sort))
+	if e.refAxioms && sort == "(Array Int Int)" && (strings.HasPrefix(name, "H_") || strings.HasPrefix(name, "C_")) {
+		e.refAxiom(name)
+	}
 	return name
+}
+
+// refAxiom: every reference stored in an unknown heap array denotes an object that existed
+// before this activation's allocations (>= 0) or one of its escaped allocations.
+func (e *FnEnc) refAxiom(arr string) {
+	ds := []string{fmt.Sprintf("(>= (select %s q!r) 0)", arr)}
+	for _, r := range e.escapedRefs {
+		ds = append(ds, fmt.Sprintf("(= (select %s q!r) %s)", arr, r))
+	}
+	e.decls = append(e.decls, fmt.Sprintf("(assert (forall ((q!r Int)) %s))", or(ds...)))
 }
 
 // havoc returns a fresh unconstrained constant of the sort of t and the type invariants
@@ -260,6 +336,14 @@ func (e *FnEnc) typeInv(term string, t types.Type, depth int) string {
 		return and(cs...)
 	case *types.Interface:
 		return e.ifaceInv(term)
+	case *types.Pointer, *types.Map:
+		// a reference obtained from memory or from a callee is an object that existed
+		// before this activation's own allocations (>= 0) or one of those that escaped
+		ds := []string{fmt.Sprintf("(>= %s 0)", term)}
+		for _, r := range e.escapedRefs {
+			ds = append(ds, fmt.Sprintf("(= %s %s)", term, r))
+		}
+		return or(ds...)
 	}
 	return "true"
 }
@@ -316,6 +400,21 @@ func (e *FnEnc) heapGet(h Heap, key, sort string) string {
 // epochName: the name of heap array key in heap h when h has no explicit entry for it:
 // the initial constant, or a fresh constant tied to the last havoc-everything epoch.
 func (e *FnEnc) epochName(h Heap, key string) string {
+	if strings.HasPrefix(key, "ghost!") {
+		// ghost state that was never set on this path
+		if e.R.heapDecl[key] == "Bool" {
+			return "false"
+		}
+		name := key + "!unset"
+		if e.epochDeclared == nil {
+			e.epochDeclared = map[string]bool{}
+		}
+		if !e.epochDeclared[name] {
+			e.epochDeclared[name] = true
+			e.declare(name, e.R.heapDecl[key])
+		}
+		return name
+	}
 	ep, ok := h["!epoch"]
 	if !ok {
 		return key
@@ -725,6 +824,9 @@ func (f *frame) assume(c string) {
 
 func (f *frame) oblige(kind, label, cond, text string, pos token.Pos) {
 	e := f.enc
+	if e.C != nil && e.C.NoSafety && (strings.HasPrefix(kind, "safety") || kind == "foreign") {
+		return // function is under contract for other clauses only
+	}
 	if e.safetyCount == nil {
 		e.safetyCount = map[string]int{}
 	}
@@ -1090,9 +1192,20 @@ func (f *frame) loopHead(li *loopInfo) {
 			f.havocAllHeap()
 			continue
 		}
+		if key == "*dyn" {
+			ws := map[string]bool{}
+			for _, k := range f.loopWrites(li) {
+				ws[k] = true
+			}
+			f.havocDynamic(ws)
+			break
+		}
 		sortS, ok := e.R.heapDecl[key]
 		if !ok {
 			continue // never read so far: declare lazily through heapGet at first use after bump
+		}
+		if e.E.stableKeys()[key] != nil {
+			continue
 		}
 		f.curHeap[key] = e.declare(e.fresh(key), sortS)
 	}
@@ -1182,6 +1295,9 @@ func (f *frame) havocAllHeap() {
 	for _, k := range ks {
 		if strings.HasPrefix(k, "ghost!") || k == "!epoch" {
 			continue
+		}
+		if e.E.stableKeys()[k] != nil {
+			continue // stable field: never reassigned in existing objects
 		}
 		if sortS, ok := e.R.heapDecl[k]; ok && !strings.HasPrefix(f.curHeap[k], "?") {
 			f.curHeap[k] = e.declare(e.fresh(k), sortS)
